@@ -253,6 +253,8 @@ static std::vector<Byte> mem_read_raw(State &s, const Val &p0, uint64_t n, const
 
 static int heap_alloc(State &s, uint64_t n, OK kind, bool zero)
 {
+  s.heap_bytes += n;
+  if (s.heap_bytes > (1ULL << 30)) { violation(s, "hugealloc", "more than 1 GiB allocated on one path (unbounded allocation?)", nullptr); throw PathEnd{"huge alloc"}; }
   return new_obj(s, n, kind == OK_NEW ? "new" : "malloc", kind, zero);
 }
 static void heap_free(State &s, const Val &p, OK kind, const char *what)
@@ -720,17 +722,24 @@ static bool call_external(State &s, const CallInst *ci, const std::string &name,
         if (ch >= '0' && ch <= '9') d = ch - '0'; else if (ch >= 'a' && ch <= 'z') d = ch - 'a' + 10; else if (ch >= 'A' && ch <= 'Z') d = ch - 'A' + 10;
         if (d < 0 || d >= (int)base) break;
         cv = cv * base + d; if (cv >> 70) { cv_sat = true; cv = 0; }
-        acc = acc * Z.bv_val(base, AW) + Z.bv_val((uint64_t)d, AW); continue;
+        if (!allc) acc = acc * Z.bv_val(base, AW) + Z.bv_val((uint64_t)d, AW);
+        continue;
       }
       if (base != 10) die("%s: symbolic digits in base %u", name.c_str(), base);
       z3::expr isd = z3::uge(*a[i].e, Z.bv_val('0', 8)) && z3::ule(*a[i].e, Z.bv_val('9', 8));
       bool md = may_be_true(s, isd), mn = may_be_true(s, !isd);
       if (md && mn) { ForkReq fr; fr.alts.push_back(isd); fr.alts.push_back(!isd); throw fr; }
       if (!md) break;
+      if (allc)
+      {
+        // first symbolic digit: seed the accumulator with the concrete prefix
+        if (cv_sat) die("%s: symbolic digits after an overflowing concrete prefix", name.c_str());
+        acc = AW > 64 ? z3::concat(Z.bv_val((uint64_t)(cv >> 64), AW - 64), Z.bv_val((uint64_t)cv, 64)) : Z.bv_val((uint64_t)cv, 64);
+      }
       allc = false;
       acc = acc * Z.bv_val(10, AW) + z3::zext(*a[i].e - Z.bv_val('0', 8), AW - 8);
     }
-    if (i - start > 23) die("%s: more than 23 digits", name.c_str());
+    if (i - start > 23 && !allc) die("%s: more than 23 symbolic digits", name.c_str());
     if (is_strto && args[1].isptr && args[1].obj >= 0) { Val e = args[0]; if (!e.conc) die("strtol on symbolic pointer"); e.c += (i == start ? 0 : i); do_store(s, args[1], e, 64); }
     // glibc semantics (strtol/strtoll saturate to LONG_MAX/LONG_MIN, strtoul to ULONG_MAX; atoi/atol/atoll are strtol casts)
     bool uns = name == "strtoul" || name == "strtoull";
